@@ -60,20 +60,6 @@ fn header_and_frames<const N: usize>() {
     kani::cover!(f.width() == 65535 && d.last().map_or(true, |x| *x == 65535));
     core::mem::forget(f);
 }
-#[kani::proof]
-#[kani::unwind(6)]
-#[kani::stub(alloc::fmt::format, crate::vklib::empty_format)]
-#[kani::stub(std::hash::RandomState::new, crate::vklib::fixed_random_state)]
-fn c01_t_header_one_frame() {
-    header_and_frames::<1>();
-}
-#[kani::proof]
-#[kani::unwind(6)]
-#[kani::stub(alloc::fmt::format, crate::vklib::empty_format)]
-#[kani::stub(std::hash::RandomState::new, crate::vklib::fixed_random_state)]
-fn c01_t_header_two_frames() {
-    header_and_frames::<2>();
-}
 
 /// header alone (frame count 0): canvas size, pixel format, transparent index with every unused header byte symbolic
 #[kani::proof]
